@@ -77,6 +77,9 @@ Section Eval.
   Variable K_eqb : K -> K -> bool.
   Variable nid : path -> K.                                 (* Node.ID of the node at a path *)
   Variable disable : bool.                                  (* parseCtx.disableTransformCache *)
+  (* false = the cache key of /repo HEAD (node ID / hash / xpathQueryNeeded); true = the key
+     before the F2 repair (node ID / hash), kept for eval_cache_old_refuted *)
+  Variable legacy_key : bool.
 
   (* parseCtx.transformCache: key = node ID / declaration hash / xpathQueryNeeded(decl) *)
   Definition mkey := (K * pdecl * bool)%type.
@@ -92,47 +95,47 @@ Section Eval.
 
   Definition ev := path -> memo -> res * memo.
 
+  (* What ParseNode reads of a declaration: its public content, xpathQueryNeeded(decl) (a
+     function of fqdn, isXPathSet and parent.kind, all fixed at validation), and its hash. *)
+  Record einfo := mkE { e_pub : pinfo; e_needed : bool; e_hash : pdecl }.
+
   (* xpathQueryNeeded *)
-  Definition isx (i : vinfo) (x : bool) : bool := is_some (p_xpath (v_pub i)) || x.
   Definition needed (i : vinfo) (x : bool) : bool :=
-    negb (fqdn_is_final (v_fqdn i)) && isx i x && negb (parent_is_array i).
+    negb (fqdn_is_final (v_fqdn i)) && (is_some (p_xpath (v_pub i)) || x) && negb (parent_is_array i).
+  Definition einfo_of (i : vinfo) (x : bool) : einfo := mkE (v_pub i) (needed i x) (v_hash i).
 
-  (* a declaration compiled against its already compiled xpath_dynamic and children *)
-  Record comp := mkComp { c_info : vinfo; c_xdyn : option ev; c_ev : ev }.
+  (* a declaration compiled against its already compiled xpath_dynamic and children; a child
+     comes with the key its parent files it under (LastNameletOfFQDNWithEsc of its fqdn) *)
+  Record comp := mkComp { c_info : einfo; c_xdyn : option ev; c_ev : ev }.
 
-  Definition norm_of (i : vinfo) (v : value) : nres :=
-    normalize (p_notrim (v_pub i)) (p_keep (v_pub i)) (p_rtype (v_pub i)) v.
-  Definition norm_ret (i : vinfo) (v : value) : res :=
-    normalize_ret (p_notrim (v_pub i)) (p_keep (v_pub i)) (p_rtype (v_pub i)) v.
+  Definition norm_of (i : einfo) (v : value) : nres :=
+    normalize (p_notrim (e_pub i)) (p_keep (e_pub i)) (p_rtype (e_pub i)) v.
+  Definition norm_ret (i : einfo) (v : value) : res :=
+    normalize_ret (p_notrim (e_pub i)) (p_keep (e_pub i)) (p_rtype (e_pub i)) v.
 
-  (* computeXPath + computeXPathDynamic: Some xpath, or None when the dynamic xpath cannot be
+  (* computeXPath + computeXPathDynamic: the xpath, or XFail when the dynamic xpath cannot be
      computed (error, nil, non-string, blank) *)
   Inductive xres := XOk (x : bytes) | XFail | XPanic.
-  Definition compute_xpath (i : vinfo) (xd : option ev) (p : path) (m : memo) : xres * memo :=
-    match p_xpath (v_pub i) with
-    | Some x => if is_nonblank x then (XOk x, m)
-                else match xd with
-                     | Some e =>
-                         let '(r, m') := e p m in
-                         (match r with
-                          | Ok (VStr s) => if is_nonblank s then XOk s else XFail
-                          | Ok _ => XFail
-                          | Err => XFail
-                          | Panic => XPanic
-                          end, m')
-                     | None => (XOk (bs "."), m)
-                     end
-    | None => match xd with
-              | Some e =>
-                  let '(r, m') := e p m in
-                  (match r with
-                   | Ok (VStr s) => if is_nonblank s then XOk s else XFail
-                   | Ok _ => XFail
-                   | Err => XFail
-                   | Panic => XPanic
-                   end, m')
-              | None => (XOk (bs "."), m)
-              end
+  Definition xres_of_dyn (r : res) : xres :=
+    match r with
+    | Ok (VStr s) => if is_nonblank s then XOk s else XFail
+    | Ok _ => XFail
+    | Err => XFail
+    | Panic => XPanic
+    end.
+  Definition static_xpath (i : einfo) : option bytes :=
+    match p_xpath (e_pub i) with
+    | Some x => if is_nonblank x then Some x else None     (* strs.IsStrPtrNonBlank *)
+    | None => None
+    end.
+  Definition compute_xpath (i : einfo) (xd : option ev) (p : path) (m : memo) : xres * memo :=
+    match static_xpath i with
+    | Some x => (XOk x, m)
+    | None =>
+        match xd with
+        | Some e => let '(r, m') := e p m in (xres_of_dyn r, m')
+        | None => (XOk (bs "."), m)
+        end
     end.
 
   (* idr.MatchAll / idr.MatchSingle *)
@@ -150,8 +153,8 @@ Section Eval.
          end.
 
   (* querySingleNodeFromXPath *)
-  Definition query_single (i : vinfo) (xd : option ev) (p : path) (m : memo) : qres * memo :=
-    if negb (needed i (is_some xd)) then (QNode p, m)
+  Definition query_single (i : einfo) (xd : option ev) (p : path) (m : memo) : qres * memo :=
+    if negb (e_needed i) then (QNode p, m)
     else
       let '(xr, m') := compute_xpath i xd p m in
       match xr with
@@ -160,7 +163,7 @@ Section Eval.
       | XPanic => (QPanic, m')
       end.
 
-  Definition anchored (i : vinfo) (xd : option ev) (body : path -> memo -> res * memo) : ev :=
+  Definition anchored (i : einfo) (xd : option ev) (body : path -> memo -> res * memo) : ev :=
     fun p m =>
       let '(q, m') := query_single i xd p m in
       match q with
@@ -171,16 +174,16 @@ Section Eval.
       end.
 
   (* parseObject's loop over decl.children *)
-  Fixpoint object_loop (cs : list comp) (n : path) (obj : list (bytes * value)) (m : memo)
+  Fixpoint object_loop (cs : list (bytes * comp)) (n : path) (obj : list (bytes * value)) (m : memo)
     : res * memo :=
     match cs with
     | [] => (Ok (VObj obj), m)
-    | c :: r =>
+    | (key, c) :: r =>
         let '(rv, m') := c_ev c n m in
         match rv with
         | Ok v =>
             match norm_of (c_info c) v with
-            | NSave v' => object_loop r n (obj_set (obj_key (v_fqdn (c_info c))) v' obj) m'
+            | NSave v' => object_loop r n (obj_set key v' obj) m'
             | NDrop => object_loop r n obj m'
             | NErr => object_loop r n obj m'     (* `_ = normalizeAndSaveValue(...)` *)
             end
@@ -189,11 +192,12 @@ Section Eval.
         end
     end.
 
-  (* parseArray's inner loop over the nodes matched for one child *)
+  (* parseArray's inner loop over the nodes matched for one child: Some = the extended array,
+     None = the error / panic that ends the evaluation *)
   Fixpoint nodes_loop (c : comp) (ns : list path) (acc : list value) (m : memo)
-    : option (list value) * res * memo :=
+    : (list value + res) * memo :=
     match ns with
-    | [] => (Some acc, Ok VNil, m)
+    | [] => (inl acc, m)
     | n :: r =>
         let '(rv, m') := c_ev c n m in
         match rv with
@@ -203,16 +207,15 @@ Section Eval.
             | NDrop => nodes_loop c r acc m'
             | NErr => nodes_loop c r acc m'
             end
-        | Err => (None, Err, m')
-        | Panic => (None, Panic, m')
+        | _ => (inr rv, m')
         end
     end.
 
   (* parseArray's loop over decl.children *)
-  Fixpoint array_loop (cs : list comp) (p : path) (acc : list value) (m : memo) : res * memo :=
+  Fixpoint array_loop (cs : list (bytes * comp)) (p : path) (acc : list value) (m : memo) : res * memo :=
     match cs with
     | [] => (Ok (VList acc), m)
-    | c :: r =>
+    | (_, c) :: r =>
         let '(xr, m1) := compute_xpath (c_info c) (c_xdyn c) p m in
         match xr with
         | XFail => array_loop r p acc m1          (* `continue` *)
@@ -221,39 +224,38 @@ Section Eval.
             match match_all x p with
             | None => (Err, m1)
             | Some ns =>
-                let '(oacc, rv, m2) := nodes_loop c ns acc m1 in
-                match oacc with
-                | Some acc' => array_loop r p acc' m2
-                | None => (rv, m2)
+                let '(o, m2) := nodes_loop c ns acc m1 in
+                match o with
+                | inl acc' => array_loop r p acc' m2
+                | inr rv => (rv, m2)
                 end
             end
         end
     end.
 
   (* prepArgValues' loop over customFuncDecl.Args *)
-  Fixpoint args_loop (s : fsig) (cs : list comp) (i : nat) (n : path) (acc : list value) (m : memo)
-    : option (list value) * res * memo :=
+  Fixpoint args_loop (s : fsig) (cs : list (bytes * comp)) (i : nat) (n : path) (acc : list value) (m : memo)
+    : (list value + res) * memo :=
     match cs with
-    | [] => (Some acc, Ok VNil, m)
-    | c :: r =>
+    | [] => (inl acc, m)
+    | (_, c) :: r =>
         let '(rv, m') := c_ev c n m in
         match rv with
         | Ok v =>
             match arg_type s i with
-            | None => (None, Panic, m')    (* unreachable after the arity check *)
+            | None => (inr Panic, m')    (* unreachable after the arity check *)
             | Some t =>
                 if is_nil v then args_loop s r (S i) n (acc ++ [zero_of t]) m'
                 else if assignable v t then args_loop s r (S i) n (acc ++ [v]) m'
-                else (None, Err, m')
+                else (inr Err, m')
             end
-        | Err => (None, Err, m')
-        | Panic => (None, Panic, m')
+        | _ => (inr rv, m')
         end
     end.
 
   (* invokeCustomFunc *)
-  Definition invoke (i : vinfo) (cs : list comp) (n : path) (m : memo) : res * memo :=
-    match p_fname (v_pub i) with
+  Definition invoke (i : einfo) (cs : list (bytes * comp)) (n : path) (m : memo) : res * memo :=
+    match p_fname (e_pub i) with
     | None => (Panic, m)                      (* nil dereference of decl.CustomFunc *)
     | Some name =>
         match fsigs name with
@@ -264,28 +266,34 @@ Section Eval.
             if Nat.ltb nargs nfix || (Nat.ltb nfix nargs && negb (is_some (s_variadic s)))
             then (Err, m)
             else
-              let '(oargs, rv, m') := args_loop s cs 0 n [] m in
-              match oargs with
-              | None => (rv, m')
-              | Some args =>
+              let '(o, m') := args_loop s cs 0 n [] m in
+              match o with
+              | inr rv => (rv, m')
+              | inl args =>
                   match fcall name n args with
                   | CfOk v => (Ok v, m')
-                  | CfErr => if p_ignore (v_pub i) then (Ok VNil, m') else (Err, m')
+                  | CfErr => if p_ignore (e_pub i) then (Ok VNil, m') else (Err, m')
                   end
               end
         end
     end.
 
+  Definition then_norm (i : einfo) (rm : res * memo) : res * memo :=
+    match fst rm with
+    | Ok v => (norm_ret i v, snd rm)
+    | _ => rm
+    end.
+
   (* the switch of ParseNode *)
-  Definition dispatch (i : vinfo) (xd : option ev) (cs : list comp) : ev :=
-    match p_kind (v_pub i) with
+  Definition dispatch (i : einfo) (xd : option ev) (cs : list (bytes * comp)) : ev :=
+    match p_kind (e_pub i) with
     | KConst => fun p m =>
-        match p_const (v_pub i) with
+        match p_const (e_pub i) with
         | Some c => (norm_ret i (VStr c), m)
         | None => (Panic, m)
         end
     | KExternal => fun p m =>
-        match p_external (v_pub i) with
+        match p_external (e_pub i) with
         | Some name => match ext name with
                        | Some v => (norm_ret i (VStr v), m)
                        | None => (Err, m)
@@ -298,29 +306,12 @@ Section Eval.
           | Some s => (norm_ret i (VStr s), m)
           | None => (Panic, m)                 (* a node outside the tree: never returned by an engine *)
           end)
-    | KObject =>
-        anchored i xd (fun n m =>
-          let '(r, m') := object_loop cs n [] m in
-          match r with
-          | Ok v => (norm_ret i v, m')
-          | _ => (r, m')
-          end)
-    | KArray => fun p m =>
-        let '(r, m') := array_loop cs p [] m in
-        match r with
-        | Ok v => (norm_ret i v, m')
-        | _ => (r, m')
-        end
-    | KCustomFunc =>
-        anchored i xd (fun n m =>
-          let '(r, m') := invoke i cs n m in
-          match r with
-          | Ok v => (norm_ret i v, m')
-          | _ => (r, m')
-          end)
+    | KObject => anchored i xd (fun n m => then_norm i (object_loop cs n [] m))
+    | KArray => fun p m => then_norm i (array_loop cs p [] m)
+    | KCustomFunc => anchored i xd (fun n m => then_norm i (invoke i cs n m))
     | KCustomParse =>
         anchored i xd (fun n m =>
-          match p_parse (v_pub i) with
+          match p_parse (e_pub i) with
           | None => (Panic, m)
           | Some name => match pcall name n with
                          | CfOk v => (norm_ret i v, m)
@@ -331,11 +322,11 @@ Section Eval.
     end.
 
   (* ParseNode *)
-  Definition parse_node (i : vinfo) (xd : option ev) (cs : list comp) : ev :=
+  Definition parse_node (i : einfo) (xd : option ev) (cs : list (bytes * comp)) : ev :=
     fun p m =>
       if disable then dispatch i xd cs p m
       else
-        let key := (nid p, v_hash i, needed i (is_some xd)) in
+        let key := (nid p, e_hash i, if legacy_key then true else e_needed i) in
         match memo_get key m with
         | Some v => (Ok v, m)
         | None =>
@@ -349,7 +340,8 @@ Section Eval.
   Fixpoint compile (d : vdecl) : comp :=
     let 'VD i x ks := d in
     let xd := match x with Some q => Some (c_ev (compile q)) | None => None end in
-    mkComp i xd (parse_node i xd (map compile ks)).
+    let e := einfo_of i (is_some x) in
+    mkComp e xd (parse_node e xd (map (fun c => (kid_key (p_kind (v_pub i)) c, compile c)) ks)).
 
   Definition eval (d : vdecl) : ev := c_ev (compile d).
 End Eval.
@@ -368,11 +360,11 @@ Section Runs.
   (* cache on, with node IDs given by [nid], starting from the memo [m] *)
   Definition eval_cached {K} (K_eqb : K -> K -> bool) (nid : path -> K) (d : vdecl) (p : path)
              (m : memo K) : res * memo K :=
-    eval root query ext fsigs fcall pcall K K_eqb nid false d p m.
+    eval root query ext fsigs fcall pcall K K_eqb nid false false d p m.
 
   (* cache off: node IDs are never looked at, the memo stays empty *)
   Definition eval_nocache (d : vdecl) (p : path) : res :=
-    fst (eval root query ext fsigs fcall pcall unit (fun _ _ => true) (fun _ => tt) true d p []).
+    fst (eval root query ext fsigs fcall pcall unit (fun _ _ => true) (fun _ => tt) true false d p []).
 End Runs.
 
 (* ============================================================================================ *)
